@@ -53,6 +53,12 @@ class C03(Property):
         'permutation, sort_substances_inplace): the model is a pure function, the real code is tied by history correspondence / oracle only',
         'the text level of Reaction.from_string (splitting on " + ", "->", ";", parentheses, `n * X`) is C12 s model; here only the multiset '
         'semantics of the written terms is modelled (mergeTerms, theorem written_terms_spec) and tied by the from_string correspondence',
+        'the MassAction-instance branch of law_of_mass_action_rates (lookup by key in dict(zip(keys, conc)), KeyError for a foreign '
+        'reactant) and the refusal of other RateExpr parameters are modelled (lawOfMassActionRatesK) but have no theorem relating them to '
+        'the plain branch: correspondence and oracle only; likewise species given by integer index (as_substance_index)',
+        'the forms of Reaction.param handled by rate_expr (MassAction([k]), objects with as_RateExpr(), strings): that they all denote '
+        'the same mass-action expression is correspondence / oracle; only the named-constant lookup is in a theorem (rate_with_given_ratex)',
+        'refusal of malformed reaction lines (no arrow, too many parts, unknown key): compared with C12 s text model, no theorem here',
         'the backend= argument (math / numpy / sympy / chempy.units.Backend()) does not change the value, also for Python ints beyond 2**63: '
         'correspondence and oracle only (the model has no backend)',
         'get_odesys(rsys, cstr=True) really builds the default feed map over all substances and hands it to rates(): theorem '
@@ -89,6 +95,12 @@ class C03(Property):
                 continue
             if i % 12 == 2:
                 cases.append(self._from_string(rng, tier))
+                continue
+            if i % 20 == 9:
+                cases.append(self._law_kinds(rng, tier))
+                continue
+            if i % 30 == 11:
+                cases.append(self._malformed_line(rng, tier))
                 continue
             if r < 0.18 and rxns:
                 c = {'op': 'rxn_rate', 'rxn': dict(rng.choice(rxns)), 'vars': sysd['vars'], 'num': num,
@@ -171,8 +183,72 @@ class C03(Property):
         spec = kg.rand_reaction(rng, subst, 'int', 3, inactive_p=0.6)
         spec['param'] = rng.randint(1, 9)
         terms, line = kg.written_reaction(rng, spec)
-        return {'op': 'from_string', 'subst': subst, 'terms': terms, 'line': line, 'vars': sysd['vars'], 'num': sysd['num'],
-                'keys': self._keys(rng, subst, allow_none=False)}
+        c = {'op': 'from_string', 'subst': subst, 'terms': terms, 'line': line, 'vars': sysd['vars'], 'num': sysd['num'],
+             'keys': self._keys(rng, subst, allow_none=False)}
+        m = rng.random()
+        stoich = line.split(';')[0]
+        if m < 0.2:                                   # quoted parameter: a NAMED rate constant, looked up in variables
+            c['line'] = stoich + "; 'k_named'"
+            c['param_key'] = 'k_named'
+            if rng.random() < 0.85:
+                c['vars'] = c['vars'] + [['k_named', terms['param']]]
+        elif m < 0.35:                                # further `; key=value` parts
+            c['line'] = line + "; name='r%d', ref='doi:x'" % rng.randint(0, 9)
+        elif m < 0.5:                                 # no parameter in the text: param= keyword
+            c['line'] = stoich.rstrip()
+            c['param_kw'] = True
+        return c
+
+    def _law_kinds(self, rng, tier):
+        """law_of_mass_action_rates over the branches of `rxn.param`: number / MassAction instance / another RateExpr (refused);
+        optionally the reactions name their species by INDEX (as_substance_index accepts ints)"""
+        sysd = kg.rand_system(rng, tier, num=rng.choice(['int', 'Fraction']), smax=5, rmax=4)
+        subst = sysd['subst']
+        if not sysd['rxns']:
+            sysd['rxns'] = [kg.rand_reaction(rng, subst, sysd['num'], 3)]
+        rxns = [dict(x, ordered=True) for x in sysd['rxns']]
+        c = {'op': 'law_kinds', 'subst': subst, 'rxns': rxns, 'num': sysd['num'], 'keys': list(subst),
+             'conc': [v for _, v in sysd['vars']], 'int_keys': False}
+        m = rng.random()
+        if m < 0.25:
+            c['int_keys'] = True                              # plain parameters only: the MassAction branch looks up by key
+        else:
+            for x in rxns:
+                x['pform'] = rng.choice(['plain', 'plain', 'massaction', 'massaction', 'other'] if m < 0.6 else ['plain', 'massaction'])
+            if rng.random() < 0.1 and c['conc']:
+                c['conc'] = c['conc'][:-1]
+            elif rng.random() < 0.1 and len(subst) > 1:
+                c['keys'], c['conc'] = c['keys'][:-1], c['conc'][:-1]
+        return c
+
+    def _law_kinds_run(self, c):
+        from chempy import ReactionSystem
+        from chempy.kinetics.ode import law_of_mass_action_rates
+        num = c['num']
+        specs = c['rxns']
+        if c['int_keys']:
+            idx = {k: i for i, k in enumerate(c['keys'])}
+            specs = [dict(x, **{p: [[idx[k], n] for k, n in x[p]] for p in ('reac', 'prod', 'inact_reac', 'inact_prod')}) for x in specs]
+        rsys = ReactionSystem([kg.mk_reaction(x, num) for x in specs], list(c['keys']), checks=())
+        return list(law_of_mass_action_rates([kg.to_num(v, num) for v in c['conc']], rsys, variables={}))
+
+    def _malformed_line(self, rng, tier):
+        """reaction lines the text reader must refuse (ValueError): no arrow, a term with too many parts, an unknown species"""
+        sysd = kg.rand_system(rng, tier, num='int', smax=4, rmax=1)
+        subst = sysd['subst']
+        spec = kg.rand_reaction(rng, subst, 'int', 3)
+        spec['param'] = rng.randint(1, 9)
+        if not spec['reac'] and not spec['prod']:
+            spec['reac'] = [[subst[0], 1]]
+        terms, line = kg.written_reaction(rng, spec)
+        m = rng.choice(['no_arrow', 'too_many', 'unknown', 'fine'])
+        if m == 'no_arrow':
+            line = line.replace('->', rng.choice(['=', '>', '- >', '']))
+        elif m == 'too_many':
+            line = line.replace(' -> ', ' + 2 %s %s -> ' % (subst[0], subst[-1]), 1) if ' -> ' in line else '2 %s %s %s' % (subst[0], subst[-1], line)
+        elif m == 'unknown':
+            line = line.replace(' -> ', ' + Q_unknown -> ', 1) if ' -> ' in line else 'Q_unknown + ' + line
+        return {'op': 'parse_refusal', 'keys': list(subst), 'line': line, 'kind': m}
 
     def _odesys_cstr(self, rng, tier):
         """stirred-tank conditions requested through get_odesys(rsys, cstr=True) (the DEFAULT feed map), on systems whose substances
@@ -346,6 +422,9 @@ class C03(Property):
             return {'op': 'history', 'steps': msteps, 'orig': c}
         if c['op'] == 'from_string':
             return dict(c, op='terms_rate')
+        if c['op'] == 'law_kinds':
+            kinds = [{'plain': 'plain', 'massaction': 'massaction', 'other': 'other'}[x.get('pform', 'plain')] for x in c['rxns']]
+            return dict(c, op='law_rates_k', kinds=kinds, rxns=[kg.readback(kg.mk_reaction(dict(x, pform='plain'), num), x) for x in c['rxns']])
         if c['op'] == 'odesys_cstr':
             return dict(c, op='sys_rates_default_cstr', observed='odesys_cstr',
                         rxns=[kg.readback(kg.mk_reaction(s, num), s) for s in c['rxns']])
@@ -423,9 +502,19 @@ class C03(Property):
                 rxn = kg.mk_reaction(c['rxn'], num)
                 kw = {'ratex': kg.to_num(c['ratex_value'], num)} if c.get('ratex_value') is not None else {}
                 return _dict_line(rxn.rate(self._vars(c), kg.get_backend(c.get('backend')), substance_keys=c['keys'], **kw))
+            if op == 'law_rates_k':
+                return show_rat_list(map(kg.to_frac, self._law_kinds_run(c)))
+            if op == 'parse_refusal':
+                from chempy import Reaction
+                try:
+                    Reaction.from_string(c['line'], list(c['keys']), checks=())
+                    return 'ok'
+                except ValueError:
+                    return 'ValueError'
             if op == 'terms_rate':
                 from chempy import Reaction
-                rxn = Reaction.from_string(c['line'], list(c['subst']), checks=())
+                kw = {'param': int(kg.frac(c['terms']['param']))} if c.get('param_kw') else {}
+                rxn = Reaction.from_string(c['line'], list(c['subst']), checks=(), **kw)
                 dj = lambda d: json.dumps([[k, int(v)] for k, v in d.items()], separators=(',', ':'))
                 return ';'.join([dj(rxn.reac), dj(rxn.prod), dj(rxn.inact_reac), dj(rxn.inact_prod),
                                  show_int_list(rxn.net_stoich(c['keys'])),
@@ -479,6 +568,39 @@ class C03(Property):
             return self._oracle_odesys_cstr(c)
         if op == 'from_string':
             return self._oracle_from_string(c)
+        if op == 'law_kinds':
+            return self._oracle_law_kinds(c)
+        if op == 'parse_refusal':
+            from chempy import Reaction
+            try:
+                Reaction.from_string(c['line'], list(c['keys']), checks=())
+                ok = True
+            except ValueError:
+                ok = False
+            except Exception as e:
+                return 'from_string(%r) raised %s instead of ValueError' % (c['line'], exc_name(e))
+            if ok != (c['kind'] == 'fine'):
+                return 'reaction line %r (%s) was %s' % (c['line'], c['kind'], 'accepted' if ok else 'refused')
+            return None
+        return None
+
+    def _oracle_law_kinds(self, c):
+        """every yielded rate is k * prod(c^nu) whatever form the parameter has; a RateExpr that is no MassAction is refused"""
+        well = len(c['conc']) == len(c['subst']) and len(c['keys']) == len(c['subst'])
+        if not well:
+            return None                      # malformed stream: decided by the correspondence
+        conc = dict(zip(c['keys'], map(kg.frac, c['conc'])))
+        try:
+            got = [kg.to_frac(x) for x in self._law_kinds_run(c)]
+        except ValueError:
+            return None if any(x.get('pform') == 'other' for x in c['rxns']) else 'law_of_mass_action_rates raised ValueError on mass-action parameters'
+        except Exception as e:
+            return 'law_of_mass_action_rates raised %s' % exc_name(e)
+        if any(x.get('pform') == 'other' for x in c['rxns']):
+            return 'a rate expression that is not of mass-action type was not refused'
+        want = [kg.rate_of(dict(x, pform='plain'), conc) for x in c['rxns']]
+        if got != want:
+            return 'law_of_mass_action_rates%s gives %s, k*prod(c^nu) = %s' % (' (species given by index)' if c['int_keys'] else '', got, want)
         return None
 
     def _oracle_from_string(self, c):
@@ -491,10 +613,18 @@ class C03(Property):
         for n, k in t['reac']:
             rate *= conc[k] ** n
         want = {k: kg.terms_net(t, k) * rate for k in c['subst']}
+        kw = {'param': int(kg.frac(t['param']))} if c.get('param_kw') else {}
+        if c.get('param_key'):
+            if c['param_key'] not in vars_:
+                try:
+                    Reaction.from_string(c['line'], list(c['subst']), checks=()).rate(vars_, substance_keys=c['subst'])
+                except KeyError:
+                    return None
+                return 'named rate constant %r is not among the variables but Reaction.rate did not fail' % c['param_key']
         try:
-            rxn = Reaction.from_string(c['line'], list(c['subst']), checks=())
+            rxn = Reaction.from_string(c['line'], list(c['subst']), checks=(), **kw)
             got = {k: kg.to_frac(v) for k, v in rxn.rate(vars_, substance_keys=c['subst']).items()}
-            rsys = ReactionSystem.from_string(c['line'], list(c['subst']), rxn_parse_kwargs={'checks': ()}, checks=(),
+            rsys = ReactionSystem.from_string(c['line'], list(c['subst']), rxn_parse_kwargs=dict(kw, checks=()), checks=(),
                                               substance_factory=lambda k: __import__('chempy').Substance(k))
             got2 = {k: kg.to_frac(v) for k, v in rsys.rates(vars_, substance_keys=c['subst']).items()}
         except Exception as e:
@@ -755,7 +885,7 @@ class C03(Property):
         return str(op)
 
     def nontrivial(self, c):
-        return bool(c.get('rxns') or c.get('rxn') or c.get('stoichs') or c.get('terms'))
+        return bool(c.get('rxns') or c.get('rxn') or c.get('stoichs') or c.get('terms') or c.get('line'))
 
 
 PROPERTY = C03()
